@@ -206,8 +206,130 @@ def add_property(doc: Dict[str, Any], rnd: random.Random) -> str:
     return f"add_property:{s['name']}.{nm}"
 
 
+# ---- richer additions: every construct below was measured to be accepted by all four plugins on the
+# pinned tree (see DESIGN section 4); each history's clean-room reference run re-checks acceptance, so
+# an edit a plugin cannot digest makes the history "skipped", never an alarm.
+
+NAME_POOL = ["from", "class", "import", "global", "in", "is", "type", "match", "async", "ref", "event", "namespace", "params", "object",
+             "self", "None", "fn", "struct", "string", "default", "base", "lambda", "yield", "crate", "enum", "const",
+             "alpha", "beta", "gamma", "kind", "uri", "range", "textDocument", "workDoneToken", "data", "value", "label", "id"]
+
+
+def _b(n: str) -> Dict[str, Any]:
+    return {"kind": "base", "name": n}
+
+
+def _r(n: str) -> Dict[str, Any]:
+    return {"kind": "reference", "name": n}
+
+
+def rich_type(doc: Dict[str, Any], rnd: random.Random, depth: int = 0) -> Dict[str, Any]:
+    structs = [s["name"] for s in doc["structures"]]
+    enums = [e["name"] for e in doc["enumerations"]]
+    k = rnd.choice(["base", "base", "ref", "ref", "enum", "or", "or_null", "array", "map", "tuple", "literal", "strlit"] if depth < 2 else ["base", "ref"])
+    if k == "base" or (k == "ref" and not structs) or (k == "enum" and not enums):
+        return _b(rnd.choice(["string", "integer", "uinteger", "boolean", "decimal", "DocumentUri", "URI"]))
+    if k == "ref":
+        return _r(rnd.choice(structs))
+    if k == "enum":
+        return _r(rnd.choice(enums))
+    if k == "or":
+        return {"kind": "or", "items": [_b("string"), _b(rnd.choice(["integer", "boolean"]))]}
+    if k == "or_null":
+        return {"kind": "or", "items": [_r(rnd.choice(structs)) if structs else _b("string"), _b("null")]}
+    if k == "array":
+        return {"kind": "array", "element": rich_type(doc, rnd, 2)}
+    if k == "map":
+        return {"kind": "map", "key": _b(rnd.choice(["string", "DocumentUri"])), "value": rich_type(doc, rnd, 2)}
+    if k == "tuple":
+        return {"kind": "tuple", "items": [_b("uinteger"), _b("uinteger")]}
+    if k == "literal":
+        return {"kind": "literal", "value": {"properties": [{"name": "a", "type": _b("string")}, {"name": "b", "type": _b("boolean"), "optional": True}]}}
+    return {"kind": "stringLiteral", "value": rnd.choice(["simkind", "create", "x"])}
+
+
+def add_rich_structure(doc: Dict[str, Any], rnd: random.Random) -> str:
+    name = _fresh(rnd, "SimRich")
+    names = rnd.sample(NAME_POOL, rnd.randint(1, 5))
+    props = []
+    for n in names:
+        p: Dict[str, Any] = {"name": n, "type": rich_type(doc, rnd)}
+        if rnd.random() < 0.5:
+            p["optional"] = True
+        if rnd.random() < 0.3:
+            p["documentation"] = f"Property {n}.\n\n@since 3.18.0"
+        if rnd.random() < 0.15:
+            p["deprecated"] = "use something else"
+        if rnd.random() < 0.15:
+            p["proposed"] = True
+        if rnd.random() < 0.2:
+            p["since"] = "3.18.0"
+        props.append(p)
+    s: Dict[str, Any] = {"name": name, "properties": props}
+    rich = [x["name"] for x in doc["structures"] if x["name"].startswith(("SimRich", "SimAdded"))]
+    if rich and rnd.random() < 0.4:
+        s["extends"] = [_r(rnd.choice(rich))]
+    if rich and rnd.random() < 0.25:
+        s["mixins"] = [_r(rnd.choice(rich))]
+    if rnd.random() < 0.3:
+        s["documentation"] = f"Rich simulated structure {name}."
+    if rnd.random() < 0.1:
+        s["proposed"] = True
+    doc["structures"].append(s)
+    return f"add_rich_structure:{name}({','.join(names)})"
+
+
+def add_alias(doc: Dict[str, Any], rnd: random.Random) -> str:
+    name = _fresh(rnd, "SimAlias")
+    t = rnd.choice([{"kind": "or", "items": [_b("string"), _b("integer")]}, {"kind": "array", "element": _b("string")},
+                    _r(rnd.choice(doc["structures"])["name"]) if doc["structures"] else _b("string"), _b("string")])
+    doc["typeAliases"].append({"name": name, "type": t})
+    return f"add_alias:{name}"
+
+
+def add_rich_request(doc: Dict[str, Any], rnd: random.Random) -> str:
+    tag = _fresh(rnd, "sim")
+    structs = [s["name"] for s in doc["structures"]]
+    if not structs:
+        add_structure(doc, rnd)
+        structs = [s["name"] for s in doc["structures"]]
+    q: Dict[str, Any] = {"method": f"sim/{tag}", "typeName": "Sim" + tag[3:] + "Request", "messageDirection": rnd.choice(["clientToServer", "serverToClient", "both"]),
+                         "result": rnd.choice([_b("null"), {"kind": "array", "element": _b("string")}, {"kind": "or", "items": [_r(rnd.choice(structs)), _b("null")]}])}
+    if rnd.random() < 0.8:
+        q["params"] = _r(rnd.choice(structs))
+    if rnd.random() < 0.3:
+        q["registrationOptions"] = _r(rnd.choice(structs))
+        q["registrationMethod"] = f"sim/{tag}/register"
+    if rnd.random() < 0.3:
+        q["partialResult"] = {"kind": "array", "element": _b("string")}
+    if rnd.random() < 0.2:
+        q["errorData"] = _b("string")
+    doc["requests"].append(q)
+    return f"add_rich_request:{q['method']}"
+
+
+def add_bare_notification(doc: Dict[str, Any], rnd: random.Random) -> str:
+    tag = _fresh(rnd, "sim")
+    doc["notifications"].append({"method": f"sim/{tag}", "typeName": "Sim" + tag[3:] + "Notification", "messageDirection": "both"})
+    return f"add_bare_notification:sim/{tag}"
+
+
+def add_enum_and_user(doc: Dict[str, Any], rnd: random.Random) -> str:
+    en = _fresh(rnd, "SimEnumR")
+    doc["enumerations"].append({"name": en, "type": _b(rnd.choice(["uinteger", "integer"])), "values": [{"name": "Neg" if i == 0 else f"V{i}", "value": i * 3 - (5 if i == 0 else 0)} for i in range(rnd.randint(1, 4))]}
+                               if rnd.random() < 0.5 else
+                               {"name": en, "type": _b("string"), "supportsCustomValues": rnd.random() < 0.5, "values": [{"name": f"V{i}", "value": f"v{i}"} for i in range(rnd.randint(1, 4))]})
+    if doc["enumerations"][-1]["type"]["name"] == "uinteger":
+        for v in doc["enumerations"][-1]["values"]:
+            v["value"] = abs(v["value"])
+    sn = _fresh(rnd, "SimUsesEnum")
+    doc["structures"].append({"name": sn, "properties": [{"name": "e", "type": _r(en)}, {"name": "es", "type": {"kind": "array", "element": _r(en)}, "optional": True}]})
+    return f"add_enum_and_user:{en}"
+
+
 SAFE_EDITS: List[Callable[[Dict[str, Any], random.Random], str]] = [
     add_structure, add_enumeration, add_enum_member, add_request, add_notification, drop_message, add_property,
+    add_rich_structure, add_rich_structure, add_rich_structure, add_alias, add_rich_request, add_bare_notification, add_enum_and_user,
 ]
 
 
